@@ -14,6 +14,9 @@ documented expansions; every other core macro used (`if setv fn do + and not
 while lfor get quote .`) returns compiler results and must leave the form alone.
 
 Carve-outs:
+* a step through `when`/`cond` is not compared with an exact expansion (docs: "shorthand for" /
+  "equivalent to"): macroexpand-1 must leave a form no longer headed by when/cond, macroexpand must
+  equal what repeated macroexpand-1 reaches; user-defined links are compared exactly;
 * "returns the model unchanged" is checked structurally, not by object identity;
 * only forms that compile are put under a core result macro (macroexpanding
   `(if)` raises a syntax error; the property does not speak about that);
@@ -39,7 +42,7 @@ RULE = ("generated macro chains m0 -> m1 -> ... -> mk -> plain form (k <= 6; arg
         "non-expression models, odd heads, core forms, each as read / position-free / mixed-position input and called "
         "with module object, module name, or from inside the module. Non-trivial = probe whose expansion sequence has "
         ">= 2 model-returning steps; distinct by (macro definitions, probe, input mode, call style).")
-FLOOR = {"quick": 800, "thorough": 800}
+FLOOR = {"quick": 400, "thorough": 800}
 BUDGET = {"quick": 25, "thorough": 360}
 CASE_TIMEOUT = 20
 NEEDS_EVENTS = True
@@ -414,6 +417,10 @@ def gen_case(rng, tier):
             p["exp1"] = G.render(seq[1] if len(seq) > 1 else seq[0])
             p["expN"] = G.render(seq[-1])
             p["steps"] = len(seq) - 1
+            # a step through the core macros when/cond is always the last one (it yields an `if` form);
+            # its exact shape is not documented, see do_probe
+            core_last = len(seq) > 1 and head_name(seq[-2]) in ("when", "cond") and head_name(seq[-2]) not in mt
+            p["pre"] = G.render(seq[-2]) if core_last else None
         else:
             p.pop("tree", None)
             if p["cls"].startswith("model:"):
@@ -512,11 +519,34 @@ def do_probe(p, mods, names, extra):
             return f"hy.{fname} raised {type(e).__name__}: {str(e)[:300]}", False
         after = G.snapshot(inp)
         outs.append((fname, inp, got, before, after))
+    def core_headed(m):
+        return (isinstance(m, M.Expression) and len(m) > 0 and isinstance(m[0], M.Symbol)
+                and hy.mangle(str(m[0])) in ("when", "cond"))
+
     for fname, inp, got, before, after in outs:
         want_text = p["exp1"] if fname == "macroexpand_1" else p["expN"]
-        want = hy.read(want_text)
         if not isinstance(got, M.Object):
             return f"hy.{fname} returned a non-model {type(got).__name__}", False
+        if p.get("pre") and (fname == "macroexpand" or p["steps"] == 1):
+            # the last step goes through `when`/`cond`, documented only as "shorthand for" / "equivalent
+            # to" an `if` ladder: do not demand the exact expansion. One step must leave a form that is
+            # no longer headed by when/cond; the fixpoint must be what expanding step by step reaches.
+            if core_headed(got) or same_model(got, hy.read(p["pre"])) is None:
+                return (f"hy.{fname} of {p['text']} returned {hy.repr(got)}: the `when`/`cond` form "
+                        f"'{p['pre']} was not expanded"), False
+            if fname == "macroexpand":
+                cur = hy.read(p["pre"])
+                for _ in range(12):
+                    nxt = hy.macroexpand_1(cur, target, **kwargs)
+                    if same_model(nxt, cur) is None:
+                        break
+                    cur = nxt
+                d = same_model(got, cur)
+                if d:
+                    return (f"hy.macroexpand of {p['text']} returned {hy.repr(got)}, but expanding step by step with "
+                            f"hy.macroexpand-1 reaches {hy.repr(cur)}: {d}"), False
+            continue
+        want = hy.read(want_text)
         d = same_model(got, want)
         if d:
             return (f"hy.{fname} of {p['text']} returned {hy.repr(got)}, expected '{want_text} "
@@ -531,6 +561,7 @@ def do_probe(p, mods, names, extra):
 
 def run_case(case):
     import hy
+    G.reset_state(module_prefixes=("hvc36m", "hvc36o", "hvc36f"))
     names = {"main": G.unique("hvc36m"), "other": G.unique("hvc36o"), "fix": G.unique("hvc36f")}
     classes = ["k:%d" % case["k"]] + case["kinds"]
     res = {"ok": True, "nontrivial": False, "classes": classes, "events": 0, "n": 0, "nt_keys": []}
@@ -552,7 +583,10 @@ def run_case(case):
                 t = _model_to_tree(hy.read(p["text"]))
                 seq = expansions(t, {})
                 p["exp1"], p["expN"], p["steps"] = G.render(seq[1]), G.render(seq[-1]), len(seq) - 1
+                p["pre"] = p["text"]
             else:
+                if p.get("pre"):
+                    p["pre"] = p["pre"].replace("FIXMOD", names["fix"])
                 p["exp1"] = p["exp1"].replace("FIXMOD", names["fix"])
                 p["expN"] = p["expN"].replace("FIXMOD", names["fix"])
             why, only_pos = do_probe(p, mods, names, extra)
